@@ -6,6 +6,7 @@ import (
 	"io"
 	"os/exec"
 	"strings"
+	"time"
 
 	"gobmc/smt"
 )
@@ -20,6 +21,8 @@ type Pruner struct {
 	nAssumed int
 	Queries  int
 	Pruned   int
+	Unknown  int
+	Sec      float64
 }
 
 func NewPruner(solver string) (*Pruner, error) {
@@ -45,8 +48,11 @@ func (p *Pruner) Close() {
 	p.cmd.Wait()
 }
 
-func (m *M) feasible(g *smt.Term) bool {
-	pr := m.Pruner
+func (m *M) feasible(g *smt.Term) bool { return m.feasibleOn(m.Pruner, g) }
+
+// feasibleOn asks one solver session (each session receives every definition and assumption it
+// has not seen yet, so several sessions can answer independent questions in parallel).
+func (m *M) feasibleOn(pr *Pruner, g *smt.Term) bool {
 	if pr == nil || g.IsTrue() {
 		return true
 	}
@@ -63,10 +69,15 @@ func (m *M) feasible(g *smt.Term) bool {
 		fmt.Fprintf(&sb, "(assert %s)\n", smt.Ref(a))
 	}
 	pr.nAssumed = len(m.Assumes)
-	fmt.Fprintf(&sb, "(push)\n(assert %s)\n(check-sat)\n(pop)\n", smt.Ref(g))
+	fmt.Fprintf(&sb, "(check-sat-assuming (%s))\n", smt.Ref(g))
+	t0 := time.Now()
 	io.WriteString(pr.in, sb.String())
 	line, err := pr.out.ReadString('\n')
+	pr.Sec += time.Since(t0).Seconds()
 	pr.Queries++
+	if l := strings.TrimSpace(line); l != "sat" && l != "unsat" {
+		pr.Unknown++
+	}
 	if err != nil {
 		return true
 	}
